@@ -149,7 +149,7 @@ func ruleC15(c *Ctx) {
 	checkAddFeature(c, "RELINK")
 
 	// WRAPPERS
-	checkReturnIs(c, "WRAPPERS", "Read", w.fn("io/polyjson", "Read"), 0, "call[poly/io/polyjson.Parse](extract[0](call[io/ioutil.ReadFile](param[0])))", "Read(path) = Parse(ReadFile(path))")
+	checkReturnIs(c, "WRAPPERS", "Read", w.fn("io/polyjson", "Read"), 0, "call[poly/io/polyjson.Parse](extract[0](call[os.ReadFile](param[0])))", "Read(path) = Parse(ReadFile(path))")
 	checkFileWrite(c, "WRAPPERS", "Write", w.fn("io/polyjson", "Write"), 1, `extract[0](call[encoding/json.MarshalIndent](param[0], const[""], const[" "]))`)
 
 	// MAPORDER prerequisite
